@@ -22,6 +22,7 @@ type retRec struct {
 	st   *State
 	vals []string
 	clos []*closureVal
+	pos  token.Pos
 }
 
 type edgeRec struct {
@@ -248,6 +249,14 @@ func (fr *Frame) run(reach string, st *State) *exitInfo {
 	order, back := forwardOrder(fn)
 	fr.findLoops(order, back)
 	fr.collectNames()
+	// no deferred call is registered when the function starts
+	for _, b := range fn.Blocks {
+		for _, in := range b.Instrs {
+			if d, ok := in.(*ssa.Defer); ok {
+				st.H[fr.deferFlag(d)] = "false"
+			}
+		}
+	}
 	fr.edges[fn.Blocks[0]] = []edgeRec{{nil, reach, st}}
 	for _, b := range order {
 		if b == fn.Recover {
@@ -722,6 +731,17 @@ func (fr *Frame) step(in ssa.Instruction, st *State, reach string, back map[[2]i
 		}
 	case *ssa.MakeInterface:
 		fr.vals[x] = vc.def(fr.name(x), "Iface", fmt.Sprintf("(mk_iface %s %s)", vc.typeID(x.X.Type()), vc.box(fr.val(x.X), x.X.Type())))
+		// boxing the address of a local variable (fmt.Sscan(&x), binary.Read(.., &x)):
+		// whoever receives the interface value may write the variable
+		if pt, ok := x.X.Type().Underlying().(*types.Pointer); ok {
+			if _, isStruct := pt.Elem().Underlying().(*types.Struct); !isStruct {
+				if _, isArr := pt.Elem().Underlying().(*types.Array); isArr {
+					vc.markEscapedBase(st, fr.val(x.X))
+				} else {
+					vc.markEscapedRef(st, fr.val(x.X))
+				}
+			}
+		}
 	case *ssa.ChangeInterface:
 		fr.vals[x] = fr.val(x.X)
 	case *ssa.ChangeType:
@@ -801,7 +821,7 @@ func (fr *Frame) step(in ssa.Instruction, st *State, reach string, back map[[2]i
 			vs = append(vs, fr.val(r))
 			cls = append(cls, fr.clos[r])
 		}
-		fr.rets = append(fr.rets, retRec{reach, st.clone(), vs, cls})
+		fr.rets = append(fr.rets, retRec{reach, st.clone(), vs, cls, x.Pos()})
 	case *ssa.Jump:
 		fr.succEdge(x.Block(), x.Block().Succs[0], reach, st, back)
 	case *ssa.If:
